@@ -9,7 +9,7 @@ from harness.core import enc_str, dec_str
 PROPERTY = "C15"
 READY = True
 THEOREMS = ["C15.clauses_ok", "C15.consts_ok", "C15.option_keys", "C15.only_rejections", "C15.selects_eval", "C15.selects",
-            "C15.placeholders", "C15.placeholders_in_order", "C15.values_only_bound", "C15.noninterference", "C15.none_ignored",
+            "C15.placeholders", "C15.placeholders_in_order", "C15.groups_parenthesised", "C15.values_only_bound", "C15.noninterference", "C15.none_ignored",
             "C15.kwargs_order", "C15.in_semantics", "C15.returns_exactly", "C15.value_order", "C15.satisfied_iff", "C15.methods"]
 
 
@@ -101,6 +101,15 @@ def translate(repo):
     if len(cs) != 4 or cs[2] != "PLACEHOLDER" or _join_receiver(lists[0].value) != cs[1]:
         raise ValueError("IN-list text is not  field + clause + '(' + SEP.join(PLACEHOLDER ...) + ')'")
     list_open, list_sep, _, list_close = cs
+    # --- static condition: `self.op = " " + op + " "` in SqlFieldValCondition.__init__
+    init = _find_method(_find_class(tree, "SqlFieldValCondition"), "__init__")
+    wraps = [n.value for n in ast.walk(init) if isinstance(n, ast.Assign) and isinstance(n.value, ast.BinOp)
+             and isinstance(n.value.op, ast.Add) and isinstance(n.value.right, ast.Constant)
+             and isinstance(n.value.left, ast.BinOp) and isinstance(n.value.left.op, ast.Add)
+             and isinstance(n.value.left.left, ast.Constant) and isinstance(n.value.left.right, ast.Name)]
+    if len(wraps) != 1 or wraps[0].left.right.id != "op":
+        raise ValueError("static condition text is not  CONST + op + CONST")
+    raw_open, raw_close = wraps[0].left.left.value, wraps[0].right.value
     # --- SqlOrCondition.make_text_update_values
     om = _find_method(_find_class(tree, "SqlOrCondition"), "make_text_update_values")
     rets = [n.value.value for n in ast.walk(om) if isinstance(n, ast.Return) and isinstance(n.value, ast.Constant)
@@ -185,6 +194,9 @@ def translate(repo):
         "def orOpen : List Char := %s" % _lean_str(opens[0]),
         "def orSep : List Char := %s" % _lean_str(or_sep),
         "def orClose : List Char := %s" % _lean_str(closes[0]),
+        "/-- a static condition (plain string) is emitted between these -/",
+        "def rawOpen : List Char := %s" % _lean_str(raw_open),
+        "def rawClose : List Char := %s" % _lean_str(raw_close),
         "/-- statement assembly -/",
         "def wherePfx : List Char := %s" % _lean_str(where_pfx),
         "def andSep : List Char := %s" % _lean_str(and_sep),
@@ -238,6 +250,8 @@ def _enc_cond(c):
         return ["A", str(c[1]), enc_str(c[2])] + _enc_arg(c[3])
     if t == "B":
         return ["B", str(c[1])]
+    if t == "R":
+        return ["R", enc_str(c[1])]
     out = ["O", str(len(c[1]))]
     for x in c[1]:
         out += _enc_cond(x)
@@ -281,12 +295,53 @@ def _enc_scen(s):
     return out + _enc_call(s["call"])
 
 
+def statics_of(call):
+    """the static condition texts of a call, in order of first appearance"""
+    out = []
+
+    def walk(c):
+        if c is None:
+            return
+        if c[0] == "R" and c[1] not in out:
+            out.append(c[1])
+        elif c[0] == "O":
+            for x in c[1]:
+                walk(x)
+    for c in call["args"]:
+        walk(c)
+    return out
+
+
+def static_values(s, atoms):
+    """what SQLite computes for each static condition text on each row (data supplied to the model and to the
+    oracle: the text is the caller's own SQL)"""
+    if not atoms or not s["rows"]:
+        return [[] for _ in s["rows"]]
+    conn = sqlite3.connect(":memory:")
+    try:
+        conn.execute("CREATE TABLE t(id INTEGER PRIMARY KEY, %s)" % ", ".join(s["names"]))
+        conn.executemany("INSERT INTO t VALUES (%s)" % ",".join("?" * (len(s["names"]) + 1)),
+                         [tuple(r) for r in s["rows"]])
+        sql = "SELECT %s FROM t%s ORDER BY %sid" % (", ".join("(%s)" % a for a in atoms),
+                                                    " AS x" if s["pfx"] == "x." else "", s["pfx"])
+        got = [list(r) for r in conn.execute(sql)]
+    finally:
+        conn.close()
+    order = sorted(range(len(s["rows"])), key=lambda i: s["rows"][i][0])
+    out = [None] * len(s["rows"])
+    for pos, i in enumerate(order):
+        out[i] = got[pos]
+    return out
+
+
 def enc_line(cmd, s):
     out = [cmd] + _enc_scen(s)
     if cmd == "ids":
-        out += [s["method"], str(len(s["rows"]))]
-        for r in s["rows"]:
-            out += [_enc_value(v) for v in r]
+        atoms = statics_of(s["call"])
+        vals = static_values(s, atoms)
+        out += [s["method"], str(len(atoms))] + [enc_str(a) for a in atoms] + [str(len(s["rows"]))]
+        for r, av in zip(s["rows"], vals):
+            out += [_enc_value(v) for v in list(r) + list(av)]
     return " ".join(out)
 
 
@@ -344,6 +399,8 @@ def _dec_cond(ts):
         return ("A", k, f, _dec_arg(ts))
     if t == "B":
         return ("B", int(ts.next()))
+    if t == "R":
+        return ("R", dec_str(ts.next()))
     assert t == "O", t
     n = int(ts.next())
     cs = [_dec_cond(ts) for _ in range(n)]
@@ -383,9 +440,12 @@ def dec_line(line):
     s["call"] = {"args": args, "kw": _dec_kw(ts)}
     if cmd == "ids":
         s["method"] = ts.next()
+        atoms = [dec_str(ts.next()) for _ in range(int(ts.next()))]
         nr = int(ts.next())
         nc = len(s["names"]) + 1
-        s["rows"] = [[_dec_value(ts.next()) for _ in range(nc)] for _ in range(nr)]
+        full = [[_dec_value(ts.next()) for _ in range(nc + len(atoms))] for _ in range(nr)]
+        s["rows"] = [r[:nc] for r in full]
+        s["statics"] = [dict(zip(atoms, r[nc:])) for r in full]
     assert ts.done(), "trailing tokens"
     return cmd, s
 
@@ -430,6 +490,8 @@ def _py_cond(c, v, inner=False):
         tup = (c[1], _py_arg(c[2], v))
     elif t == "A":
         tup = (c[2], _BAD_OPS[c[1] % len(_BAD_OPS)], _py_arg(c[3], v))
+    elif t == "R":
+        return c[1]
     elif t == "B":
         if inner and c[1] % 8 == 7:
             return None                      # None is ignored only at top level
@@ -653,6 +715,8 @@ def _leaf_ok(op, a):
 
 
 def _cond_ok(c):
+    if c[0] == "R":
+        return True
     if c[0] == "T":
         return _leaf_ok(c[2], c[3])
     if c[0] == "P":
@@ -666,10 +730,30 @@ def _call_ok(call):
     return all(c is None or _cond_ok(c) for c in call["args"]) and all(_leaf_ok("=", a) for _, a in call["kw"])
 
 
+def _static_atomic(text):
+    """no OR outside parentheses: the text means the same with and without parentheses around it"""
+    depth = 0
+    for tok in text.replace("(", " ( ").replace(")", " ) ").split():
+        if tok == "(":
+            depth += 1
+        elif tok == ")":
+            depth -= 1
+        elif depth == 0 and tok.upper() == "OR":
+            return False
+    return True
+
+
 def _scen_ok(s):
-    """a call the statement speaks about: well-formed conditions, `_order_by` absent, None or a text"""
+    """a call the statement speaks about: well-formed conditions, `_order_by` absent, None or a text. A static
+    condition is the caller's own SQL and is AND-ed as it stands at top level (only OR groups are parenthesised):
+    a top-level static text with a bare OR next to other conditions is the caller's precedence, not a filter tree."""
     c = s["corder"]
-    return _call_ok(s["call"]) and (c is None or c[0] == "S" or c[1] is None)
+    call = s["call"]
+    n = len([x for x in call["args"] if x is not None]) + len(call["kw"])
+    for x in call["args"]:
+        if x is not None and x[0] == "R" and n > 1 and not _static_atomic(x[1]):
+            return False
+    return _call_ok(call) and (c is None or c[0] == "S" or c[1] is None)
 
 
 def _sql_cmp(op, x, y):
@@ -739,6 +823,9 @@ def _leaf_val(row, f, op, a):
 
 
 def _cond_val(row, c):
+    if c[0] == "R":                       # the caller's own SQL: its value on the row as SQLite computes it
+        v = row[("static", c[1])]
+        return None if v is None else v != 0
     if c[0] == "T":
         return _leaf_val(row, c[1], c[2], c[3])
     if c[0] == "P":
@@ -750,6 +837,9 @@ def _selected(s):
     cols = cols_of(s)
     order = eff_order(s)
     rows = [dict(zip(cols, r)) for r in s["rows"]]
+    for r, st in zip(rows, s.get("statics") or [{} for _ in rows]):
+        for text, v in st.items():
+            r[("static", text)] = v
     call = s["call"]
     conds = [c for c in call["args"] if c is not None] + [("P", k, a) for k, a in call["kw"]]
     out = [r for r in rows if all(_cond_val(r, c) is True for c in conds)]
@@ -777,6 +867,8 @@ def _leaf_bindings(f, op, a):
 
 
 def _cond_bindings(c):
+    if c[0] == "R":
+        return []
     if c[0] == "T":
         return _leaf_bindings(c[1], c[2], c[3])
     if c[0] == "P":
@@ -846,8 +938,8 @@ def _mark_call(call):
         return ("S", mv(a[1])) if a[0] == "S" else (a[0], [mv(x) for x in a[1]])
 
     def mc(c):
-        if c is None:
-            return None
+        if c is None or c[0] == "R":
+            return c
         if c[0] == "T":
             return ("T", c[1], c[2], ma(c[3]))
         if c[0] == "P":
@@ -969,17 +1061,40 @@ def _case_op(rng, op):
 
 # the scenario being generated: column expressions, which of them holds integers, cells by column (conditions
 # that hit rows)
-_CTX = {"fields": ["a", "b", "c"], "intcol": "a", "pool": {}}
+_CTX = {"fields": ["a", "b", "c"], "intcol": "a", "pool": {}, "names": ["a", "b", "c"]}
 
 
 def _g_field(rng):
     return rng.choice(_CTX["fields"])
 
 
+_KW_TEXTS = []
+
+
+def kw_texts():
+    """values that spell an operation, a clause or a fixed piece of the generated SQL (every key and every clause
+    of the repo's own tables, in upper, lower and mixed case): data like any other"""
+    if not _KW_TEXTS:
+        mtd_sql, _ = _mods()
+        base = ["0", "1", "FALSE", "TRUE", "?", "%s", "NULL", "None", "AND", "OR", "WHERE", "(", ")", "(?)", "= ?", "IS", "NOT"]
+        for tab in mtd_sql.SqlFilterCondition._SQL_CLAUSES.values():
+            for k, v in tab.items():
+                base += [k, v.strip(), v]
+        seen = []
+        for b in base:
+            for x in (b, b.lower(), b.title(), b.upper()):
+                if x not in seen:
+                    seen.append(x)
+        _KW_TEXTS.extend(seen)
+    return _KW_TEXTS
+
+
 def _g_value(rng, field, allow_none=True):
     r = rng.random()
     if allow_none and r < 0.12:
         return None
+    if r > 0.9:
+        return rng.choice(kw_texts())
     pool = _CTX["pool"].get(field)
     if pool and rng.random() < 0.55:
         v = rng.choice(pool)
@@ -1081,12 +1196,29 @@ def _g_kw(rng, n):
     return out
 
 
+def _g_static(rng, in_group):
+    """a static condition: SQL text written by the caller. At top level it is AND-ed as it stands (a text with a
+    top-level OR has to be parenthesised by the caller, or wrapped into _or(...)): such texts only inside groups."""
+    f = _CTX["fields"]
+    pid = f[0][:len(f[0]) - len(_CTX["names"][0])] + "id"
+    f1, f2 = rng.sample(f, 2)
+    texts = ["%s = %s" % (f1, f2), "%s = %s" % (pid, f1), "%s IS NULL" % f1, "%s < %s" % (f1, pid), "1", "0", "1 = 1",
+             "(%s = 1 OR %s IS NULL)" % (f1, f2), "NOT %s = 1" % f1, "%s IN (1, 2, 5)" % f1,
+             "%s = 1 AND %s IS NOT NULL" % (f1, f2), "%s IS NOT NULL" % f2, "%s > 1" % pid]
+    if in_group:
+        texts += ["%s = 1 OR %s IS NULL" % (f1, f2), "%s IS NULL OR %s = 2" % (f1, pid), "%s = 1 OR %s = 3" % (pid, pid),
+                  "%s = 0 OR %s = %s" % (f1, f1, f2)] * 2
+    return ("R", rng.choice(texts))
+
+
 def _g_cond(rng, depth=0):
     if depth < 2 and rng.random() < (0.22 if depth == 0 else 0.12):
-        n = rng.choice([0, 1, 2, 2, 3])
+        n = rng.choice([0, 1, 1, 2, 2, 3])
         cs = [_g_cond(rng, depth + 1) for _ in range(n)]
-        kw = _g_kw(rng, rng.choice([0, 0, 1, 2, 3]))
+        kw = _g_kw(rng, rng.choice([0, 0, 0, 1, 2, 3]))
         return ("O", cs, kw)
+    if rng.random() < 0.07:
+        return _g_static(rng, depth > 0)
     return _g_leaf(rng)
 
 
@@ -1146,7 +1278,7 @@ def _g_scenario(rng, tier, malformed, big=0):
     names = list(names)
     pfx = rng.choice(_PREFIXES)
     fields = [pfx + n for n in names]
-    _CTX.update(fields=fields, intcol=fields[0], pool={})
+    _CTX.update(fields=fields, intcol=fields[0], pool={}, names=names)
 
     def cell(k):
         if big and k == 0:
@@ -1210,6 +1342,8 @@ def _rename_fields(call, s):
     def rc(c):
         if c is None or c[0] == "B":
             return c
+        if c[0] == "R":                   # its text names the columns of the other scenario
+            return ("T", new[0], "IS NOT NULL", ("S", None))
         if c[0] == "T":
             return ("T", m.get(c[1], c[1]), c[2], c[3])
         if c[0] == "P":
@@ -1271,6 +1405,55 @@ def _fixed_scenarios():
                     yield mk_scenario(call, rows2, names=names, pfx=pfx, v=k * 57 % 1024)
 
 
+def _keywordish_scenarios():
+    """values that spell operations / clauses / fixed text, in every form of a condition, on rows that hold them"""
+    texts = kw_texts()
+    for i, t in enumerate(texts):
+        other = texts[(i * 7 + 3) % len(texts)]
+        rows = [[1, t, t, None], [2, None, other, t], [3, t.swapcase(), None, None], [4, 0, t, other], [5, other, "x", "x"]]
+        forms = [
+            {"args": [("P", "a", ("S", t))], "kw": []},
+            {"args": [("T", "a", "=", ("S", t))], "kw": []},
+            {"args": [("T", "a", "!=", ("S", t))], "kw": [("c", ("S", None))]},
+            {"args": [], "kw": [("a", ("S", t))]},
+            {"args": [], "kw": [("b", ("S", t)), ("c", ("S", other))]},
+            {"args": [("O", [("P", "a", ("S", t))], [])], "kw": []},
+            {"args": [("O", [], [("a", ("S", t))])], "kw": [("b", ("S", t))]},
+            {"args": [("O", [("P", "c", ("S", t)), ("T", "a", "=", ("S", other))], [("b", ("S", other))])], "kw": []},
+            {"args": [("P", "a", ("L", [t, other]))], "kw": []},
+            {"args": [("T", "b", "IN", ("L", [t])), None], "kw": []},
+            {"args": [("T", "b", "NOT IN", ("Z", [t]))], "kw": []},
+            {"args": [("T", "a", "<=", ("S", t))], "kw": []},
+        ]
+        if "\x00" not in t:
+            forms.append({"args": [("T", "b", "LIKE", ("S", t))], "kw": []})
+        for j, call in enumerate(forms):
+            yield mk_scenario(call, rows, v=(i * 13 + j * 101) % 1024, scal=[None, 1, 0][j % 3],
+                              dorder=[None, [("id", j % 2 == 0)]][j % 2])
+
+
+def _static_scenarios():
+    """static conditions (the caller's own SQL): alone, next to other conditions, as the only / one of several
+    operands of OR groups (also nested) - the group must stay one unit under the surrounding AND"""
+    rows = [[1, 7, 1, "Chuck"], [2, 7, 2, "x"], [3, 1, 1, "Chuck"], [4, None, 1, "x"], [5, 7, None, None], [6, 1, 3, "Chuck"]]
+    statics_or = ["a = 7 OR id = 1", "b = 1 OR a IS NULL", "id = 2 OR id = 6", "a = 1 OR b = a"]
+    statics_plain = ["a = b", "id = b", "a IS NULL", "(a = 7 OR id = 3)", "1", "0", "a = 1 AND b = 1"]
+    others = [([], [("c", ("S", "Chuck"))]), ([("T", "b", "=", ("S", 1))], []), ([("T", "a", "!=", ("S", 7))], [("c", ("S", "Chuck"))]),
+              ([], []), ([("T", "c", "IS NULL", ("S", None))], [])]
+    k = 0
+    for t in statics_or + statics_plain:
+        for extra_args, kw in others:
+            groups = [("O", [("R", t)], []), ("O", [("O", [("R", t)], [])], []), ("O", [("R", t), ("T", "b", "=", ("S", 3))], []),
+                      ("O", [("R", t)], [("b", ("S", 2))]), ("O", [("O", [("R", t)], []), ("O", [], [])], [])]
+            if t in statics_plain:
+                groups.append(("R", t))
+            for g in groups:
+                for args in ([g] + extra_args, extra_args + [g], [None, g] + extra_args):
+                    k += 1
+                    yield mk_scenario({"args": list(args), "kw": list(kw)}, rows, v=(k * 29) % 1024,
+                                      dorder=[None, [("id", True)]][k % 2])
+
+
 def _long_list_scenarios(rng, sizes, per_size):
     for n in sizes:
         for _ in range(per_size):
@@ -1280,6 +1463,12 @@ def _long_list_scenarios(rng, sizes, per_size):
 def gen_cases(rng, tier):
     for s in _fixed_scenarios():
         yield _mk_case(s, "fixed-shapes")
+    for s in _static_scenarios():
+        yield _mk_case(s, "static-conditions", rng)
+    for i, s in enumerate(_keywordish_scenarios()):
+        if tier != "quick" or i % 3 == rng.randrange(3):
+            yield {"lines": [enc_line("params", s), enc_line("ids", dict(s, method="list"))],
+                   "meta": {"kind": "values-spelling-sql"}}
     if tier != "quick":                      # exhaustive small scope: every operation x every kind of value
         yield from search_cases(rng, tier)
     for s in _long_list_scenarios(rng, _BIG_SIZES, 8 if tier == "quick" else 60):
@@ -1333,6 +1522,10 @@ def search_cases(rng, tier):
                                        v=rng.randrange(1024)), "search-long-list")
     for s in list(_fixed_scenarios())[-400:]:
         yield _mk_case(s, "search-names")
+    for s in _static_scenarios():
+        yield _mk_case(s, "search-static")
+    for s in _keywordish_scenarios():
+        yield {"lines": [enc_line("params", s), enc_line("ids", dict(s, method="list"))], "meta": {"kind": "search-values-spelling-sql"}}
     rows = [[1, None, None, None], [2, 1, "a", "A"], [3, "1", "a%", ""], [4, 2, "b", "it's"]]
     vals = [("S", None), ("S", 1), ("S", "a"), ("S", "a%"), ("L", []), ("L", [1]), ("L", [None, "a"]), ("Z", []), ("Z", [1])]
     ops = ["=", "!=", "<", ">", "<=", ">=", "IN", "NOT IN", "IS NULL", "IS NOT NULL", "LIKE", "NOT LIKE", "in", "=="]
@@ -1512,6 +1705,8 @@ def tags(case, replies):
                 yield "list-size:" + _size_bucket(len(l[2][1]))
             elif l[0] in ("A", "B"):
                 yield "malformed:" + l[0]
+            elif l[0] == "R":
+                yield "static-condition" + (":with-OR" if " OR " in l[1] and not l[1].startswith("(") else "")
     for line, rep in zip(case["lines"], replies):
         w = line.split(" ", 1)[0]
         yield "reply:%s:%s" % (w, rep if rep.startswith("err") else rep.split()[0])
@@ -1521,7 +1716,9 @@ def tags(case, replies):
 
 RULE = ("a case = one scenario: table t(id, 3 columns named plainly / with leading underscores / digits and upper case / as quoted "
         "SQL keywords, optionally written qualified) of 0-6 rows [thorough: 0-8] over NULL/ints/texts; 0-3 [0-5] positional "
-        "conditions incl. OR groups nested up to 2, None arguments, 0-3 keyword filters; default ORDER BY and/or _order_by "
+        "conditions incl. OR groups nested up to 2 and static (plain string) conditions, None arguments, 0-3 keyword filters; "
+        "values incl. every spelling of the clause tables' keys and texts (IS NULL, in, = ?, 0, FALSE, %s ...) in every form of a "
+        "condition on rows holding them; default ORDER BY and/or _order_by "
         "(text, None, not a text), _as_scalars; value lists of 0-4 and of 10/999/1000/1001/2500 values (duplicates, NULLs) - asked "
         "as sql / params / ids(list) and some of ids(one | one_or_none | SqlMethodT.one_or_none) on ONE SqlMethod object; 3% "
         "of the cases continue with other calls on the same object; non-trivial = at least one condition or keyword filter; "
@@ -1534,8 +1731,11 @@ ASSUMPTIONS = ["SQLite evaluates the text render(w) as the model's semW says and
                "column expressions are what the caller would write in SQL (a keyword as column name is written quoted)",
                "the caller's own texts contain no placeholder character: decidable predicate `clean`, evaluated by the driver on "
                "every request (hypothesis of C15.placeholders; never false on generated input)",
-               "raw string conditions and '=' with a set are out of domain (a set is refused by sqlite3 as a parameter: "
-               "generated only in the malformed stream); GROUP BY is text only (rows are computed only for GROUP BY id)"]
+               "a static condition is the caller's own SQL: an opaque boolean expression whose value per row is computed by SQLite "
+               "and supplied to the model and the oracle; at top level it is AND-ed as it stands, so a top-level static text with "
+               "a bare OR next to other conditions is outside the property (inside _or(...) it is inside)",
+               "'=' with a set is out of domain (a set is refused by sqlite3 as a parameter: generated only in the malformed "
+               "stream); GROUP BY is text only (rows are computed only for GROUP BY id)"]
 LEVEL_TEXT = ("Proved in Lean for all calls, rows and tables, on the model that the driver executes: the value of the generated "
               "WHERE clause under SQL three-valued logic equals the AND of what the caller's conditions mean (=/!= with None "
               "-> IS [NOT] NULL, with a list/tuple -> [NOT] IN of any length, empty IN false / empty NOT IN true, OR groups incl. "
@@ -1545,7 +1745,8 @@ LEVEL_TEXT = ("Proved in Lean for all calls, rows and tables, on the model that 
               "into the ORDER BY in effect (_order_by overrides, None cancels the default) under a model of SQLite's value order "
               "proved to be a strict total order, then list/one/one_or_none [returns_exactly, value_order, methods]; one "
               "placeholder mark per bound value under a decidable cleanliness predicate checked on every request, every clause "
-              "consuming exactly the values of its own marks left to right [placeholders, placeholders_in_order]; the text does "
+              "consuming exactly the values of its own marks left to right [placeholders, placeholders_in_order]; a non-empty OR "
+              "group is always one parenthesised unit, also around a single static operand [groups_parenthesised]; the text does "
               "not change by one character when only values change [values_only_bound, noninterference]; no failure other than "
               "ValueError/AttributeError of a constructor, a refused parameter or TypeError for a non-text _order_by "
               "[only_rejections]; both clause tables and all fixed text pieces, regenerated from ak/mtd_sql.py on every run, "
@@ -1556,8 +1757,8 @@ LEVEL_TEXT = ("Proved in Lean for all calls, rows and tables, on the model that 
 LEVEL_NOTE = ("Trusted: Lean kernel (axioms propext, Classical.choice, Quot.sound), translator/adapter/oracle in harness/c15.py, "
               "sampled correspondence (rows over NULL/ints/texts with quotes, %, _, backslashes, SQL fragments; all 12 operations "
               "x value kinds; list lengths up to 2500; column names incl. leading underscore; malformed stream limited to one "
-              "failing constructor per call), sqlite3/SQLite 3.40.1, str.upper on ASCII. Out of the model: raw string "
-              "conditions, column affinity, floats/blobs, ints beyond 64 bit, NUL characters, GROUP BY semantics (text only), "
+              "failing constructor per call), sqlite3/SQLite 3.40.1, str.upper on ASCII. Out of the model: the inside of static "
+              "conditions (opaque; precedence of the parenthesised text rests on the tie), column affinity, floats/blobs, ints beyond 64 bit, NUL characters, GROUP BY semantics (text only), "
               "which exception wins when several conditions are malformed, _order_by='' (dangling ORDER BY).")
 TECHNIQUE = ("Lean 4: WHERE-clause AST with 3-valued semantics, mutual induction over the nested condition tree, insertion-sort "
              "ORDER BY model; translator for clause tables, text constants and option keys; differential run against SqlMethod + "
